@@ -766,3 +766,132 @@ def malformed_blobs(rng, blob):
         lr['runner_up_correlation'] = [0.5] * k
         out.append(('runners_on_inferred_level', b))
     return out
+
+
+# ---------------------------------------------------------------------------
+# clean_for_json
+# ---------------------------------------------------------------------------
+
+def gen_pyval(rng, depth=0, key=False):
+    """a nested Python value with numpy scalars, tuples, sets of integers and
+    arrays, as clean_for_json may meet them"""
+    r = rng.random()
+    if key:
+        # dict keys: str / int / np.int64
+        if r < 0.6:
+            return rng.choice(NODE_POOL) + str(rng.randrange(50))
+        if r < 0.8:
+            return rng.randrange(-5, 500)
+        return np.int64(rng.randrange(-5, 500))
+    if depth >= 3 or r < 0.45:
+        k = rng.randrange(10)
+        return [None, True, np.bool_(rng.random() < 0.5),
+                rng.randrange(-10, 10), np.int64(rng.randrange(-2**40, 2**40)),
+                rng.random(), np.float64(rng.random()), float('nan'),
+                rng.choice(NODE_POOL), np.int64(0)][k]
+    if r < 0.55:
+        return [gen_pyval(rng, depth + 1) for _ in range(rng.randint(0, 3))]
+    if r < 0.65:
+        return tuple(gen_pyval(rng, depth + 1)
+                     for _ in range(rng.randint(0, 3)))
+    if r < 0.75:
+        vals = [rng.randrange(-50, 50) for _ in range(rng.randint(0, 6))]
+        return set(np.int64(v) if rng.random() < 0.3 else v for v in vals)
+    if r < 0.85:
+        shape = rng.choice([(0,), (3,), (2, 2), (1, 0)])
+        kind = rng.choice(['i', 'f', 'b'])
+        if kind == 'i':
+            return np.arange(int(np.prod(shape)), dtype=rng.choice(
+                [np.int64, np.int32, np.uint8])).reshape(shape)
+        if kind == 'f':
+            return (np.arange(int(np.prod(shape)), dtype=float) / 7.0
+                    ).reshape(shape)
+        return (np.arange(int(np.prod(shape))) % 2 == 0).reshape(shape)
+    d = {}
+    for _ in range(rng.randint(0, 3)):
+        d[gen_pyval(rng, depth + 1, key=True)] = gen_pyval(rng, depth + 1)
+    return d
+
+
+def pyval_json(x, st):
+    """type-tagged encoding for the model (exact Python/numpy types)"""
+    if x is None:
+        return {'t': 'none'}
+    if type(x) is bool:
+        return {'t': 'bool', 'v': x}
+    if isinstance(x, np.bool_):
+        return {'t': 'npBool', 'v': bool(x)}
+    if type(x) is int:
+        return {'t': 'int', 'v': x}
+    if isinstance(x, np.int64):
+        return {'t': 'npInt64', 'v': int(x)}
+    if isinstance(x, float):          # includes np.float64
+        return {'t': 'num', 'v': num_json(float(x))}
+    if type(x) is str:
+        return {'t': 'str', 'v': st.id(x)}
+    if type(x) is list:
+        return {'t': 'list', 'v': [pyval_json(v, st) for v in x]}
+    if type(x) is tuple:
+        return {'t': 'tuple', 'v': [pyval_json(v, st) for v in x]}
+    if type(x) is set and all(isinstance(v, (int, np.int64)) and
+                              not isinstance(v, bool) for v in x):
+        return {'t': 'intSet', 'v': [int(v) for v in x]}
+    if isinstance(x, np.ndarray):
+        return {'t': 'ndarray', 'v': [pyval_json(v, st) for v in x.tolist()]}
+    if type(x) is dict:
+        return {'t': 'dict', 'v': [[pyval_json(k, st), pyval_json(v, st)]
+                                   for k, v in x.items()]}
+    return {'t': 'other', 'v': st.id('%s:%r' % (type(x).__name__, x))}
+
+
+def plainify(x):
+    """what the cleaned value must denote, computed independently: Python
+    scalars, lists, dicts"""
+    if isinstance(x, (bool, np.bool_)):
+        return bool(x)
+    if isinstance(x, (int, np.integer)):
+        return int(x)
+    if isinstance(x, float):
+        return 'NaN' if math.isnan(x) else float(x)
+    if isinstance(x, (list, tuple)):
+        return [plainify(v) for v in x]
+    if isinstance(x, set):
+        return sorted(plainify(v) for v in x)
+    if isinstance(x, np.ndarray):
+        return plainify(x.tolist())
+    if isinstance(x, dict):
+        return {plainify(k): plainify(v) for k, v in x.items()}
+    return x
+
+
+def pyval_from_json(j, strs):
+    """inverse of pyval_json (for replay); arrays come back as int64/float
+    arrays of their .tolist()"""
+    t, v = j['t'], j.get('v')
+    if t == 'none':
+        return None
+    if t == 'bool':
+        return bool(v)
+    if t == 'npBool':
+        return np.bool_(v)
+    if t == 'int':
+        return int(v)
+    if t == 'npInt64':
+        return np.int64(v)
+    if t == 'num':
+        return float('nan') if v == 'nan' else (
+            None if v is None else v[0] / v[1])
+    if t == 'str':
+        return strs[v]
+    if t == 'list':
+        return [pyval_from_json(x, strs) for x in v]
+    if t == 'tuple':
+        return tuple(pyval_from_json(x, strs) for x in v)
+    if t == 'intSet':
+        return set(int(x) for x in v)
+    if t == 'ndarray':
+        return np.array([pyval_from_json(x, strs) for x in v])
+    if t == 'dict':
+        return {pyval_from_json(a, strs): pyval_from_json(b, strs)
+                for a, b in v}
+    raise ValueError('cannot rebuild %r' % (j,))
